@@ -65,6 +65,19 @@ Definition request_of (en : env) (s : settings) : string + request :=
                      q_query := full_query |}
   end.
 
+(* a sequence of generations in ONE process over the SAME configuration object, the environment
+   changing in between: get_client_settings builds a fresh settings object each time and
+   resolve_headers builds a fresh dict, so the configuration is read, never written *)
+Definition run_once (en : env) (cfg : settings) : (string + request) * settings :=
+  (request_of en cfg, cfg).
+
+Fixpoint run_history (cfg : settings) (ens : list env) : list (string + request) * settings :=
+  match ens with
+  | [] => ([], cfg)
+  | en :: r => let '(o, cfg1) := run_once en cfg in
+               let '(os, cfg2) := run_history cfg1 r in (o :: os, cfg2)
+  end.
+
 (* ================= 2. the decision chain ================= *)
 (* what httpx makes of the URL before anything is sent *)
 Inductive urlclass :=
@@ -311,6 +324,21 @@ Definition run_introspect (e : sexp) : sexp :=
                                    qf_input_value_deprecation (q_query q)])]
           end
       | _, _, _ => sErr "request" end
+  | L [A "constants"] =>
+      (* the marker character of get_header_value, found by probing the model itself *)
+      L [A (match header_value [("X", "v")] "$X" with inr "v" => "$" | _ => "?" end);
+         L (map sB [qf_descriptions full_query; qf_specified_by_url full_query; qf_directive_is_repeatable full_query;
+                    qf_schema_description full_query; qf_input_value_deprecation full_query])]
+  | L [A "history"; A url; hs; v; ens] =>
+      match dList dPair hs, dB v, dList (dList dPair) ens with
+      | Some hs, Some v, Some ens =>
+          let '(os, cfg) := run_history {| s_url := url; s_headers := hs; s_verify := v |} ens in
+          L [L (map (fun o => match o with
+                              | inl n => L [A "err"; A n]
+                              | inr q => L [A "ok"; L (map (fun p => L [A (fst p); A (snd p)]) (q_headers q))]
+                              end) os);
+             L (map (fun p => L [A (fst p); A (snd p)]) (s_headers cfg))]
+      | _, _, _ => sErr "history" end
   | L [A "outcome"; u; st; body; deep] =>
       match dUrl u, dZ st, dOpt json_of_sexp body, dOpt dStr deep with
       | Some u, Some st, Some body, Some deep =>
